@@ -171,7 +171,7 @@ def gen_spec(rng, idx):
             if rng.random() < 0.5:
                 el.append({"kind": "other_load", "name": f"load{s}_{i}", "swb": s, "rated": r, "curve": comps.gen_accepted_curve(rng, r)})
             else:
-                el.append(plants.gen_serial_spec(rng, "drive", f"drive{s}_{i}", s, r, n_stages=int(rng.choice([2, 3]))))
+                el.append(plants.gen_serial_spec(rng, "drive", f"drive{s}_{i}", s, r, n_stages=int(rng.choice([1, 2, 3]))))
         if rng.random() < 0.5:
             st = comps.gen_storage_spec(rng)
             st.update(name=f"ess{s}", swb=s)
